@@ -119,6 +119,10 @@ def run(run):
         run.notes['cli_cases'] = cli_cases(run, wd, damaged[r % step::step][:40 if thorough else 10])
         import collections
         run.notes['fault_kinds_seen'] = dict(collections.Counter(f for c in allcases for f in c['faults'] if f != 'none'))
+        # the command line (Cmd.tla): decode with every combination of -m / --continue-on-error / --filter and formats over files with
+        # a damaged message: what is printed before the failure, what is skipped, and the error on stderr without a traceback
+        from .. import cmd
+        cmd.run_commands(run, wd, ['decode'], seed())
     finally:
         rm_workdir(wd)
     run.assumptions = ['the total length of a damaged message is intact (the property says so)',
